@@ -219,7 +219,8 @@ def oracle_cases(ctx, corr):
     ints = [dict(c, model='pyint') for c in sc.CORPUS[:8]]
     wide = [sc.pinned_wide_case(ctx.rng, 3, r, k) for r, k in ((17, 2), (18, 3), (21, 1), (24, 2))]
     # refused constraint calls before the search on the same finder
-    refused = [sc.with_rejected_calls(ctx.rng, c) for c in (list(sc.CORPUS[:8]) + cases[:ctx.n(60, 600)])
+    refused = [sc.with_rejected_calls(ctx.rng, c)
+               for c in (list(sc.CORPUS[:8]) + [sc.random_case(ctx.rng) for _ in range(ctx.n(100, 800))])
                if not c.get('after')]
     return again + ints + wide + refused + cases
 
